@@ -139,6 +139,7 @@ func newEngineRT(name string) *engineRT {
 	_, err := e.rt.NewHostModuleBuilder(hostModName).
 		NewFunctionBuilder().WithGoModuleFunction(api.GoModuleFunc(hostPanic), []api.ValueType{i32}, nil).Export("panic").
 		NewFunctionBuilder().WithGoModuleFunction(api.GoModuleFunc(hostClose), []api.ValueType{i32}, nil).Export("close").
+		NewFunctionBuilder().WithGoModuleFunction(api.GoModuleFunc(hostCloseB), []api.ValueType{i32}, nil).Export("closeb").
 		NewFunctionBuilder().WithGoModuleFunction(api.GoModuleFunc(hostGC), nil, []api.ValueType{i32}).Export("gc").
 		NewFunctionBuilder().WithGoModuleFunction(api.GoModuleFunc(hostReenter), []api.ValueType{i32, i32, i32, i32, i32}, []api.ValueType{i32}).Export("reenter").
 		Instantiate(ctx)
@@ -181,6 +182,12 @@ func hostPanic(ctx context.Context, mod api.Module, stack []uint64) {
 		panic(theCustomVal)
 	}
 	panic("c06: hostPanic called with unknown kind")
+}
+
+// hostCloseB closes the other guest instance (not the caller).
+func hostCloseB(ctx context.Context, mod api.Module, stack []uint64) {
+	w := ctx.Value(worldKey{}).(*world)
+	_ = w.B.CloseWithExitCode(ctx, api.DecodeU32(stack[0]))
 }
 
 var gcSink []byte
